@@ -191,15 +191,24 @@ def _write_input(path, spec, x):
     with quiet():
         materialize.write_h5ad(path, x, cells, genes, enc=spec['enc'], layer=spec['layer'],
                                obs_cols=_obs_columns(cells), var_cols=_var_columns(genes),
-                               rechunk=rechunk, x_placeholder=ph)
+                               rechunk=rechunk, x_placeholder=ph,
+                               obs_index_name=spec.get('obs_index_name'), var_index_name=spec.get('var_index_name'))
     if layout == 'contiguous' and spec['enc'] != 'dense':
         _make_sparse_contiguous(path, 'X' if spec['layer'] is None else f'layers/{spec["layer"]}')
+
+
+_SHARED_MAPPERS = {}
 
 
 def _make_mapper(spec):
     from cell_type_mapper.gene_id.gene_id_mapper import GeneIdMapper
     if spec['mapper'] == 'inferred':
         return None
+    if spec.get('shared_mapper'):
+        key = (spec['mapper'], spec['species'])
+        if key not in _SHARED_MAPPERS:
+            _SHARED_MAPPERS[key] = _make_mapper(dict(spec, shared_mapper=False))
+        return _SHARED_MAPPERS[key]
     if spec['mapper'] == 'from_species':
         return GeneIdMapper.from_species(spec['species'])
     return GeneIdMapper.from_mouse() if spec['species'] == 'mouse' else GeneIdMapper.from_human()
@@ -270,7 +279,7 @@ def check(spec):
     n, m = len(cells), len(genes)
     x = g.expand_x(spec['x'], n, m)
     mod = model(spec, x)
-    classes = []
+    classes = ['mapper_object_shared_between_files'] if spec.get('shared_mapper') else []
 
     with sandbox() as d:
         d = pathlib.Path(d)
